@@ -2,76 +2,14 @@
 // workflow with the communicator passed everywhere it is accepted, over the virtual MPI, all interleavings state-hashed
 // (checkpoint digests merge schedules that left identical data), against the single-rank single-thread run.
 #include "vx_checks.hpp"
+#include "c06_workflow.hpp"
 #include <array>
 using namespace mx;
 
 namespace {
-typedef boost::tuple<ComplexType, ComplexType, ComplexType> FT;
-typedef std::map<std::string, std::vector<double> > Dump;
+typedef c06::Dump Dump;
 struct Shared { std::map<int, Dump> dump; std::map<int,int> done; } *SH = 0;
 static std::map<std::string, Dump> g_reference;     // per configuration-without-P: the P=1, T=1 run
-
-uint64_t digest_doubles(const double* p, size_t n, uint64_t h) { for (size_t i = 0; i < n; ++i) { long long q = llround(p[i] * 1e8); h = vmpi::hash_bytes(&q, sizeof(q), h); } return h; }
-void put(Dump& d, const std::string& k, cd v) { d[k].push_back(v.real()); d[k].push_back(v.imag()); }
-
-struct ModelSpec { std::string shape; std::vector<Gen> hist; };
-ModelSpec model_of(int id) {
-    ModelSpec m;
-    if (id == 1) { m.shape = "S1"; Gen g; g.kind = COULOMB_S; g.l1 = "A"; g.v[0] = 2; g.v[1] = -0.5; Gen h; h.kind = MAGN; h.l1 = "A"; h.v[0] = 0.25; m.hist = { g, h }; }
-    else if (id == 2) { m.shape = "S2"; Gen h; h.kind = HOP_OOS; h.l1 = "A"; h.l2 = "B"; h.v[0] = -1; Gen l; l.kind = LEVEL; l.l1 = "A"; l.v[0] = 0.5; Gen r; r.kind = RAW; r.v[0] = 2; RawOp x1 = { true, "A", 0, 0 }, x2 = { false, "A", 0, 0 }, x3 = { true, "B", 0, 0 }, x4 = { false, "B", 0, 0 }; r.raw = { x1, x2, x3, x4 }; m.hist = { h, l, r }; }
-    else { m.shape = "S6"; Gen u; u.kind = COULOMB_S; u.l1 = "A"; u.v[0] = 2; u.v[1] = -1; Gen u2 = u; u2.l1 = "B"; u2.v[0] = 0.5; u2.v[1] = 0.5; Gen t; t.kind = HOP_ALL; t.l1 = "A"; t.l2 = "B"; t.v[0] = -1; m.hist = { u, u2, t }; }
-    return m;
-}
-const int COMPS[5][4] = { { 0, 1, 0, 1 }, { 0, 0, 0, 0 }, { 1, 1, 1, 1 }, { 1, 0, 0, 1 }, { 0, 1, 1, 0 } };
-
-// the per-rank program.  phase: 1 = distributed H only, 2 = + TwoParticleGF::compute per component, 3 = + container computeAll
-void workflow(int rank, const VxConfig& c, Dump& out, bool checkpoints) {
-    ModelSpec ms = model_of(c.p.at("model")); Shape sh = make_shape(ms.shape); int ncomp = c.p.at("comps"), phase = c.p.at("phase"); bool clear = c.p.at("clear"), split = c.p.at("split"); double beta = 2.0;
-    boost::mpi::communicator comm;
-    Pipe P; P.make_lattice(sh, ms.hist); P.make_states(SYM_DEFAULT);
-    P.H.reset(new Hamiltonian(*P.IC, *P.HS, *P.S)); P.H->prepare(comm);
-    uint64_t dg = 0x11;
-    for (BlockNumber b = 0; b < P.S->NumberOfBlocks(); b++) { const MatrixType& m = P.H->getPart(b).getMatrix(); dg = digest_doubles((const double*)m.data(), m.size() * (sizeof(MelemType) / sizeof(double)), dg); dg = vmpi::hash_bytes(&P.H->getPart(b).Status, sizeof(unsigned), dg); for (long i = 0; i < m.size(); ++i) put(out, "Hprep", cd(m.data()[i])); }
-    if (checkpoints) vmpi::checkpoint(dg);
-    P.H->compute(comm);
-    for (BlockNumber b = 0; b < P.S->NumberOfBlocks(); b++) { const HamiltonianPart& hp = P.H->getPart(b); const MatrixType& m = hp.getMatrix(); dg = digest_doubles((const double*)m.data(), m.size() * (sizeof(MelemType) / sizeof(double)), dg); dg = digest_doubles(hp.getEigenValues().data(), hp.getEigenValues().size(), dg); dg = vmpi::hash_bytes(&hp.Status, sizeof(unsigned), dg);
-        for (long i = 0; i < m.size(); ++i) put(out, "evec", cd(m.data()[i])); for (long i = 0; i < hp.getEigenValues().size(); ++i) put(out, "eval", hp.getEigenValues()(i)); }
-    put(out, "E0", P.H->getGroundEnergy());
-    if (checkpoints) vmpi::checkpoint(dg);
-    P.make_rho(beta); P.make_ops(); P.make_gf(); int M = P.M;
-    for (int i = 0; i < M; ++i) for (int j = 0; j < M; ++j) for (long n = -1; n <= 1; ++n) put(out, "G", (*P.G)(i, j)(n));
-    std::vector<FT> freqs; std::vector<std::array<long,3> > tri = { { 0, 0, 0 }, { 0, -1, 0 }, { 1, -2, 0 }, { -1, 0, 1 } };
-    for (auto& t : tri) freqs.push_back(FT(refed::matsubara_f(beta, t[0]), refed::matsubara_f(beta, t[1]), refed::matsubara_f(beta, t[2])));
-    auto dig_terms = [&](TwoParticleGF& X, uint64_t h) { for (auto* p : X.parts) { h = vmpi::hash_bytes(&p->Status, sizeof(unsigned), h); for (auto& t : p->NonResonantTerms.data) { double v[6] = { t.Coeff.real(), t.Coeff.imag(), t.Poles[0], t.Poles[1], t.Poles[2], double(t.isz4) + 2 * t.Weight }; h = digest_doubles(v, 6, h); } for (auto& t : p->ResonantTerms.data) { double v[8] = { t.ResCoeff.real(), t.ResCoeff.imag(), t.NonResCoeff.real(), t.NonResCoeff.imag(), t.Poles[0], t.Poles[1], t.Poles[2], double(t.isz1z2) + 2 * t.Weight }; h = digest_doubles(v, 8, h); } } return h; };
-    if (phase >= 2) for (int k = 0; k < ncomp; ++k) {
-        const int* q = COMPS[k]; if (q[0] >= M || q[1] >= M || q[2] >= M || q[3] >= M) continue;
-        TwoParticleGF X(*P.S, *P.H, P.Ops->getAnnihilationOperator(q[0]), P.Ops->getAnnihilationOperator(q[1]), P.Ops->getCreationOperator(q[2]), P.Ops->getCreationOperator(q[3]), *P.rho); X.prepare();
-        std::vector<ComplexType> tab = X.compute(clear, freqs, comm);
-        std::string tag = "chi" + std::to_string(k);
-        if (comm.rank() == 0) for (auto& v : tab) put(out, tag + ".table(root)", v);          // the reduction root holds the table
-        put(out, tag + ".tablesize", double(tab.size()));
-        if (!clear) for (auto& t : tri) put(out, tag + ".terms", X(t[0], t[1], t[2]));          // evaluation from terms is offered on every rank
-        dg = dig_terms(X, dg); if (comm.rank() == 0) dg = digest_doubles((const double*)tab.data(), tab.size() * 2, dg);
-        if (checkpoints) vmpi::checkpoint(dg);
-    }
-    if (phase >= 3) {
-        TwoParticleGFContainer C(*P.IC, *P.S, *P.H, *P.rho, *P.Ops); std::set<IndexCombination4> want;
-        for (int k = 0; k < ncomp; ++k) { const int* q = COMPS[k]; if (q[0] < M && q[1] < M && q[2] < M && q[3] < M) want.insert(IndexCombination4(q[0], q[1], q[2], q[3])); }
-        C.prepareAll(want);
-        std::map<IndexCombination4, std::vector<ComplexType> > tabs = C.computeAll(clear, freqs, comm, split);
-        for (auto it = C.NonTrivialElements.begin(); it != C.NonTrivialElements.end(); ++it) {
-            std::string tag = "cont" + std::to_string(it->first.Index1) + std::to_string(it->first.Index2) + std::to_string(it->first.Index3) + std::to_string(it->first.Index4);
-            auto tb = tabs.find(it->first); put(out, tag + ".has_table", tb != tabs.end() ? 1.0 : 0.0);
-            // split path broadcasts the tables to every rank; the unsplit path leaves them on the reduction root
-            if (tb != tabs.end() && (split || comm.rank() == 0)) for (auto& v : tb->second) put(out, tag + (split ? ".table(all)" : ".table(root)"), v);
-            if (tb != tabs.end()) put(out, tag + ".tablesize", double(tb->second.size()));
-            if (!clear) for (auto& t : tri) put(out, tag + ".terms", C(it->first)(t[0], t[1], t[2]));   // every listed component must be evaluable on every rank
-            dg = dig_terms(*it->second, dg);
-        }
-        if (checkpoints) vmpi::checkpoint(dg);
-    }
-}
-
 std::string ref_key(const VxConfig& c) { std::string s; for (auto& kv : c.p) if (kv.first != "P" && kv.first != "rdv" && kv.first != "omp" && kv.first != "ompord") s += kv.first + "=" + std::to_string(kv.second) + " "; return s; }
 
 VxHarness make_c06(const VxConfig& c) {
@@ -79,12 +17,12 @@ VxHarness make_c06(const VxConfig& c) {
     // reference: the same program on one rank, one thread (computed once, in the parent, before any exploration)
     std::string rk = ref_key(c);
     if (!g_reference.count(rk)) { VxConfig c1 = c; c1.p["P"] = 1; vmpi::Config m1; m1.P = 1; Dump d; Quiet q;
-        vmpi::Outcome o = vmpi::run(m1, [&](int r) { workflow(r, c1, d, false); }, [](size_t, const std::vector<int>& en, const std::vector<char>&, uint64_t, uint64_t) { return en[0]; });
+        vmpi::Outcome o = vmpi::run(m1, [&](int r) { c06::workflow(r, c1.p, d, false); }, [](size_t, const std::vector<int>& en, const std::vector<char>&, uint64_t, uint64_t) { return en[0]; });
         if (o.kind != vmpi::Outcome::OK) throw std::runtime_error("C06: the single-rank reference run failed: " + o.detail);
         g_reference[rk] = d; }
     const Dump* ref = &g_reference[rk]; VxConfig cc = c;
     h.reset = []() { static Shared s; s = Shared(); SH = &s; };
-    h.body = [cc](int rank) { Quiet q; Dump d; workflow(rank, cc, d, true); SH->dump[rank] = d; SH->done[rank] = 1; };
+    h.body = [cc](int rank) { Quiet q; Dump d; c06::workflow(rank, cc.p, d, true); SH->dump[rank] = d; SH->done[rank] = 1; };
     h.oracle = [P, ref](const vmpi::Outcome& o, std::string& sig) -> std::string {
         for (int p = 0; p < P; ++p) if (!SH->done[p]) return "rank " + std::to_string(p) + " did not complete the workflow";
         if (o.leftover_messages) return std::to_string(o.leftover_messages) + " message(s) were never received";
